@@ -19,7 +19,7 @@ import copy
 
 from sim import core
 from sim import engine_a as A
-from sim.sched import Scheduler, train_dirs
+from sim.sched import Scheduler, SimulatedInterrupt, train_dirs
 
 
 def _member_digest(res):
@@ -31,10 +31,11 @@ def run_group(world):
     n = len(members)
     solo = [A.run_single(m) for m in members]
     sch = world["sched"]
+    crash_at = sch.get("crash_at") or {}
     if "switches" in sch:
-        s = Scheduler(n, explicit=sch, trace_dirs=train_dirs())
+        s = Scheduler(n, explicit=sch, trace_dirs=train_dirs(), crash_at=crash_at)
     else:
-        s = Scheduler(n, seed=sch["seed"], p_switch=sch["p"], trace_dirs=train_dirs())
+        s = Scheduler(n, seed=sch["seed"], p_switch=sch["p"], trace_dirs=train_dirs(), crash_at=crash_at)
     any_progress = any(m.get("show_progress", False) for m in members)
     any_perm = any(m.get("perm_proxy", True) and m["loop"] == "data" for m in members)
     with A.Seams(progress=any_progress, perm_proxy=any_perm, thread_aware=True) as seams:
@@ -43,7 +44,13 @@ def run_group(world):
         def make(i):
             def fn():
                 A._TLS.group_notes = notes
-                return A.run_single(members[i], rid=i + 1, install_seams=False)
+                try:
+                    return A.run_single(members[i], rid=i + 1, install_seams=False)
+                except SimulatedInterrupt:
+                    # the call was aborted between two lines; the user simply calls again
+                    # ("restart"): same key, data and knobs must reproduce the same run
+                    s.rearm(i)
+                    return A.run_single(members[i], rid=i + 1, install_seams=False)
 
             return fn
 
@@ -62,6 +69,7 @@ def run_group(world):
         "yields": s.k,
         "per_thread_yields": list(s.per_thread),
         "lost_events": lost,
+        "interrupts_delivered": {str(m): k for m, k in sorted(s.crashed.items())},
     }
     return {"kind": "group", "members": conc, "solo": solo, "events": [], "out": out}
 
@@ -95,6 +103,8 @@ def oracle_group(prop, world, result):
     P["group_members"] = len(world["members"])
     P["group_switches"] = len(out["schedule"]["switches"])
     P["group_yields"] = out["yields"]
+    P["interrupt_delivered"] = len(out.get("interrupts_delivered", {}))
+    P["interrupt_scheduled"] = len(world["sched"].get("crash_at") or {})
     for i, (m, r) in enumerate(zip(world["members"], result["members"])):
         Vi, Pi, mode = member_oracle(m, r)
         modes.append(mode)
@@ -152,6 +162,7 @@ def fired(world, result, probes):
             acc[k] = acc.get(k, 0) + v
     acc["sched_switch"] = len(result["out"]["schedule"]["switches"])
     acc["sched_group"] = 1
+    acc["sched_interrupt_and_restart"] = len(result["out"].get("interrupts_delivered", {}))
     return acc
 
 
@@ -176,6 +187,17 @@ def shrink_candidates(w):
     from sim import shrink
 
     sch = w["sched"]
+    if len(w["members"]) > 1 and "switches" in sch:
+        for drop in range(len(w["members"])):
+            c = copy.deepcopy(w)
+            del c["members"][drop]
+            c["sched"] = _remap_after_drop(c["sched"], drop)
+            yield c
+    if sch.get("crash_at"):
+        for m in sorted(sch["crash_at"]):
+            c = copy.deepcopy(w)
+            del c["sched"]["crash_at"][m]
+            yield c
     if "switches" in sch:
         sw = sch["switches"]
         if sw:
@@ -189,12 +211,6 @@ def shrink_candidates(w):
                     c = copy.deepcopy(w)
                     c["sched"]["switches"] = sw[:i] + sw[i + 1 :]
                     yield c
-    if len(w["members"]) > 2:
-        for drop in range(len(w["members"])):
-            c = copy.deepcopy(w)
-            del c["members"][drop]
-            c["sched"] = _remap_after_drop(c["sched"], drop)
-            yield c
     for i, m in enumerate(w["members"]):
         for cand in shrink.candidates_a(m):
             c = copy.deepcopy(w)
@@ -218,6 +234,10 @@ def _remap_after_drop(sch, drop):
         m2, t2 = rm(int(m)), rm(t)
         if m2 is not None and t2 is not None:
             out["finish"][str(m2)] = t2
+    for m, v in (sch.get("crash_at") or {}).items():
+        m2 = rm(int(m))
+        if m2 is not None:
+            out.setdefault("crash_at", {})[str(m2)] = v
     return out
 
 
